@@ -539,6 +539,9 @@ namespace chaiscript {
       }
 
       Boxed_Value eval_internal(const chaiscript::detail::Dispatch_State &t_ss) const override {
+        // like Equation_AST_Node (which this node replaces): temporaries of the right-hand side, e.g. the object of
+        // `var x = make().member`, must stay alive until the value has been copied
+        chaiscript::eval::detail::Function_Push_Pop fpp(t_ss);
         const std::string &idname = this->children[0]->text;
 
         try {
